@@ -413,6 +413,8 @@ def check(prop, tier, only=None, seed=0):
                 continue
             if r["status"] == "SUCCESSFUL":
                 for d, st in r["covers"].items():
+                    if d.startswith("W:") and st == "UNREACHABLE" and h.get("allow_unreachable_w"):
+                        continue
                     if d.startswith("W:") and st != "SATISFIED":
                         inconclusive.append((name, f"vacuity witness not satisfied: {d} ({st})"))
                     if d.startswith("KF:") and st == "SATISFIED":
